@@ -274,6 +274,9 @@ def master_specs(fam):
                     t[0] *= tw["factor"]
                     t[3] *= tw.get("factor_y", 1)
                 g["components"][tw["comp"]]["t"] = t
+            elif tw["kind"] == "empty-glyph":
+                # an empty placeholder for this glyph in this master only (no contours, components or anchors)
+                g["contours"], g["components"], g["anchors"] = [], [], []
             elif tw["kind"] == "zero-length" and tw["contour"] < len(g.get("contours", [])):
                 c = g["contours"][tw["contour"]]
                 j = tw["point"]
